@@ -1,6 +1,7 @@
 import Anything.Model.Cli
 import Anything.Props.C12
 import Anything.Lemmas.EvalCtx
+import Anything.Lemmas.EvalFuel
 /-!
 # C11 — any input yields values or located errors, never a crash
 
@@ -14,7 +15,8 @@ way of crashing an explicit outcome:
 * `EvalErr.panic "fuel"`, the model's own recursion fuel — `C11_no_fuel_panic` shows that
   `2 * size` fuel is enough for every tree whatsoever (`queryLoop` passes `2 * size + 2`): the
   recursion only descends into children and along operator chains, both counted by `size`
-  (`Lemmas/EvalSat.lean`, `sat_all`);
+  (`Lemmas/EvalSat.lean`, `sat_all`), and `C11_fuel_irrelevant` that more fuel never changes
+  a result;
 * `EvalErr.panic "round debug_assert"` — `C11_round_no_assert`: unreachable for ALL arguments,
   because the value returned for a digit count `n ≤ 0` is an integer (C10);
 * `EvalErr.panic "Compound::new zero power"` — `C11_mul_no_assert`: `Compound::mul` never
@@ -84,6 +86,13 @@ theorem C11_no_fuel_panic (cfg : Cfg) (fuel : Nat) (a : At) (d : List Desc)
   intro hh
   exact (sat_eval (ctx_fuel cfg) fuel a trivial (by omega) d).1 _ hh rfl
 
+/-- **C11 (fuel is immaterial).** With the fuel `queryLoop` passes, or any larger amount,
+`eval` computes exactly what it computes with `2 * size` fuel: the fuel is only a device to
+make the recursion structural and never influences a result. -/
+theorem C11_fuel_irrelevant (cfg : Cfg) (fuel : Nat) (a : At)
+    (h : 2 * Eval.size a.t + 2 ≤ fuel) : eval cfg fuel a = eval cfg (2 * Eval.size a.t) a :=
+  eval_fuel_irrelevant cfg fuel a (by omega)
+
 /-- The hypothesis of `C11_no_fuel_panic` cannot simply be dropped: with too little fuel the
 model does report `"fuel"` (here: a parenthesised number evaluated with fuel 1). -/
 example : (eval { db := fun _ => .nothing } 1
@@ -128,6 +137,18 @@ theorem C11_spans (cfg : Cfg) (src : List Char) (res : List (Except EvalErr Nume
     rw [← C12.C12_bytes src]
     exact h2
 
+/-- The byte range of an error result. -/
+def C11_spanOf : Except EvalErr Numeric → Option (Nat × Nat)
+  | .error (.err _ s e) => some (s, e)
+  | _ => none
+
+/-- Non-vacuity of `C11_spans`: a query with multi-byte characters whose only result is an
+error (`°q` is not in the database) located at bytes 8‥11 — after `2 °C + ` (8 bytes, 7
+characters) and at the end of the input (11 bytes, 9 characters). -/
+example : (Eval.query { db := fun _ => .nothing } "2 °C + °q".toList).toOption.map
+    (fun r => r.1.map C11_spanOf) = some [some (8, 11)] := by
+  decide +kernel
+
 /-! ## The zero-power assertion of `Compound::mul` -/
 
 /-- Table fact: no derived unit of the table is dimensionless. -/
@@ -169,7 +190,29 @@ example : AllKnown [(.derived 353022001, ⟨1, 0⟩)] ∧
   subst he
   decide +kernel
 
-/-! ## No panic at all -/
+/-! ## No panic at all
+
+`DbKnown db` (`Lemmas/EvalCtx.lean`): every constant the database returns has a unit made of
+base units and derived units of the table. In the Rust program this is an invariant of the
+type `Derived` (a reference to a static table entry; deserialisation goes through
+`id_to_derived` and rejects unknown ids), and units written as text only ever name table
+units (`C11_fromStr_known`). -/
+
+/-- **C11 (units written as text are units of the table).** `impl FromStr for Compound`
+(how constants files spell units) only produces known units. -/
+theorem C11_fromStr_known (src : List Char) (c : Compound)
+    (h : Eval.compoundFromStr src = .ok (.ok c)) : AllKnown c := by
+  unfold Eval.compoundFromStr at h
+  split at h
+  · cases h
+  · split at h
+    · simp only [Except.ok.injEq] at h
+      exact unit_known _ _ _ h
+    · split at h
+      · simp only [Except.ok.injEq] at h
+        exact unit_known _ _ _ h
+      · simp only [Except.ok.injEq] at h
+        cases h
 
 /-- **C11 (no panic).** No result of a query is a panic: in a release build for every
 database, in a debug build for every database whose constants carry units of the table.
@@ -193,6 +236,39 @@ theorem C11_no_panic (cfg : Cfg) (src : List Char)
       · rw [h] at hd; cases hd
       · exact h)
     exact (sat_queryLoop hctx (kidsAt 0 forest) [] hloc _ hr).1 _ rfl trivial
+
+/-- A small database for the non-vacuity examples: the speed of light in `m/s` and a
+force in newton (a derived unit of the table). -/
+def C11_sampleDb : Db := fun s =>
+  if s = ['c'] then
+    .found { value := 299792458, unit := [(.base .Meter, ⟨1, 0⟩), (.base .Second, ⟨-1, 0⟩)],
+             description := [] }
+  else if s = ['f'] then
+    .found { value := 2, unit := [(.derived 353022001, ⟨1, 0⟩)], description := [] }
+  else .nothing
+
+/-- Non-vacuity of `C11_no_panic` in a debug build: the sample database satisfies `DbKnown`,
+and `f / 1N * c` divides newton by newton (both `reconstruct` paths, opposite signs) and
+yields a value in `m/s`. -/
+example : DbKnown C11_sampleDb ∧
+    ((Eval.query { db := C11_sampleDb, debug := true } "f / 1N * c".toList).toOption.map
+      (fun r => r.1.map (fun x => x.toOption.map (fun v => (v.value, v.unit.length))))
+      = some [some (599584916, 2)]) := by
+  refine ⟨?_, by decide +kernel⟩
+  intro s c h
+  unfold C11_sampleDb at h
+  split at h
+  · cases h
+    intro e he
+    simp only [List.mem_cons, List.not_mem_nil, or_false] at he
+    rcases he with rfl | rfl <;> rfl
+  · split at h
+    · cases h
+      intro e he
+      simp only [List.mem_singleton] at he
+      subst he
+      decide +kernel
+    · cases h
 
 /-- **C11 (the property for the model).** Every input yields a list of results, each of
 which is a value, or an error with a kind and a byte range inside the input on character
